@@ -147,4 +147,315 @@ theorem openFiles_of_coherent {d : Disk} {files : List (Name × UB)} (hc : Coher
     rw [hfiles] at hl hdp
     simp only [hfiles, hprev, Option.isSome_none, Bool.false_eq_true, if_false, hc0, Bool.not_true, hcc, hdp, hl]
 
+
+theorem checkUB_prev_lt {d : Disk} {rid : Nat} {f : Name} {ub p : UB} {ch : Bool}
+    (h : checkUB d rid f ub (some p) ch = true) : p.idx < ub.idx := by
+  unfold checkUB at h
+  simp only [Bool.and_eq_true, decide_eq_true_eq] at h
+  exact h.2.1
+
+theorem checkChain_sorted (d : Disk) (rid : Nat) : ∀ (l : List (Name × UB)) (p : UB),
+    checkChain d rid p l = true → (∀ x ∈ l, p.idx < x.2.idx) ∧ l.Pairwise IdxLt
+  | [], _, _ => by simp
+  | (f, ub) :: r, p, h => by
+    cases r with
+    | nil =>
+      simp only [checkChain] at h
+      have := checkUB_prev_lt h
+      simp [this]
+    | cons y r' =>
+      simp only [checkChain, Bool.and_eq_true] at h
+      have h1 := checkUB_prev_lt h.1
+      obtain ⟨h2, h3⟩ := checkChain_sorted d rid (y :: r') ub h.2
+      constructor
+      · intro x hx
+        simp only [List.mem_cons] at hx
+        rcases hx with rfl | hx
+        · exact h1
+        · exact Nat.lt_trans h1 (h2 x (by simpa using hx))
+      · exact List.Pairwise.cons (fun x hx => h2 x hx) h3
+
+/-- **soundness of `_open`**: what it returns is a coherent chain -/
+theorem openFiles_sound {d : Disk} {paths : List Name} {rw : Bool} {files : List (Name × UB)} {b : Bool}
+    (h : openFiles d paths rw = .ok (files, b)) : Coherent d files := by
+  have hmem := openFiles_mem h
+  unfold openFiles at h
+  split at h
+  · cases h
+  · cases hl : loadAll d paths with
+    | error e => simp [hl] at h
+    | ok ubs =>
+      simp only [hl] at h
+      cases hs : sortByIdx ubs with
+      | nil => simp [hs] at h
+      | cons x rest =>
+        obtain ⟨f0, u0⟩ := x
+        simp only [hs] at h
+        split at h
+        · cases h
+        · rename_i hprev
+          split at h
+          · cases h
+          · rename_i hc0
+            split at h
+            · cases h
+            · rename_i hcc
+              split at h
+              · cases h
+              · rename_i hdp
+                cases hlast : lastFile ((f0, u0) :: rest) with
+                | none => simp [hlast] at h
+                | some y =>
+                  simp only [hlast, Except.ok.injEq, Prod.mk.injEq] at h
+                  obtain ⟨rfl, _⟩ := h
+                  have hcc' : checkChain d u0.rid u0 rest = true := by simpa using hcc
+                  obtain ⟨hlt, hpw⟩ := checkChain_sorted d u0.rid rest u0 hcc'
+                  refine ⟨hmem, List.Pairwise.cons (fun x hx => hlt x hx) hpw, f0, u0, rest, rfl, ?_, ?_, hcc', ?_⟩
+                  · cases hp : u0.prev <;> simp_all
+                  · simpa using hc0
+                  · simpa using hdp
+
+
+theorem coherent_congr {d d' : Disk} {files : List (Name × UB)}
+    (h : ∀ x ∈ files, getF d' x.1 = getF d x.1) (hc : Coherent d files) : Coherent d' files := by
+  obtain ⟨f0, u0, rest, hfiles, hprev, hc0, hcc, hdp⟩ := hc.checks
+  refine ⟨?_, hc.sorted, f0, u0, rest, hfiles, hprev, ?_, ?_, hdp⟩
+  · intro f ub hm
+    obtain ⟨p, hp⟩ := hc.onDisk f ub hm
+    exact ⟨p, by rw [h (f, ub) hm]; exact hp⟩
+  · rw [checkUB_congr (h (f0, u0) (by rw [hfiles]; simp))]; exact hc0
+  · rw [checkChain_congr d d' u0.rid rest u0 (fun x hx => h x (by rw [hfiles]; simp [hx]))]; exact hcc
+
+theorem viewFiles_names (d : Disk) : ∀ (l l' : List (Name × UB)), l.map Prod.fst = l'.map Prod.fst →
+    viewFiles d l = viewFiles d l'
+  | [], [], _ => rfl
+  | [], _ :: _, h => by simp at h
+  | _ :: _, [], h => by simp at h
+  | (f, u) :: r, (g, v) :: r', h => by
+    simp only [List.map_cons, List.cons.injEq] at h
+    simp only [viewFiles, h.1, viewFiles_names d r r' h.2]
+
+/-- membership in a list whose last user block was replaced -/
+theorem mem_setLastUB : ∀ (l : List (Name × UB)) (fl : Name) (ul u : UB) (x : Name × UB),
+    lastFile l = some (fl, ul) → x ∈ setLastUB l u → x = (fl, u) ∨ x ∈ dropLastF l
+  | [], _, _, _, _, h, _ => by simp [lastFile] at h
+  | [(g, v)], fl, ul, u, x, h, hx => by
+    simp only [lastFile, Option.some.injEq, Prod.mk.injEq] at h
+    simp only [setLastUB, List.mem_cons, List.not_mem_nil, or_false] at hx
+    left; rw [hx, h.1]
+  | a :: b :: r, fl, ul, u, x, h, hx => by
+    simp only [lastFile] at h
+    simp only [setLastUB, List.mem_cons] at hx
+    rcases hx with rfl | hx
+    · right; simp [dropLastF]
+    · rcases mem_setLastUB (b :: r) fl ul u x h (by simpa using hx) with h1 | h1
+      · left; exact h1
+      · right; simp only [dropLastF, List.mem_cons]; right; exact h1
+
+theorem dropLastF_append_last : ∀ (l : List (Name × UB)) (x : Name × UB),
+    lastFile l = some x → dropLastF l ++ [x] = l
+  | [], _, h => by simp [lastFile] at h
+  | [y], x, h => by simp only [lastFile, Option.some.injEq] at h; simp [dropLastF, h]
+  | a :: b :: r, x, h => by
+    simp only [lastFile] at h
+    simp only [dropLastF, List.cons_append, dropLastF_append_last (b :: r) x h]
+
+theorem setLastUB_eq_dropLast_append : ∀ (l : List (Name × UB)) (fl : Name) (ul u : UB),
+    lastFile l = some (fl, ul) → setLastUB l u = dropLastF l ++ [(fl, u)]
+  | [], _, _, _, h => by simp [lastFile] at h
+  | [(g, v)], fl, ul, u, h => by
+    simp only [lastFile, Option.some.injEq, Prod.mk.injEq] at h
+    simp [setLastUB, dropLastF, h.1]
+  | a :: b :: r, fl, ul, u, h => by
+    simp only [lastFile] at h
+    have := setLastUB_eq_dropLast_append (b :: r) fl ul u h
+    simp only [setLastUB, dropLastF, List.cons_append] at this ⊢
+    rw [this]
+
+
+/-- `u'` is `u` with a checksum (and possibly another manifest extension) -/
+def SameLink (u u' : UB) : Prop := u'.rid = u.rid ∧ u'.idx = u.idx ∧ u'.pid = u.pid ∧ u'.prev = u.prev
+
+theorem checkUB_committed {d : Disk} {rid : Nat} {fl : Name} {ul ul' : UB} {prev : Option UB} {ch ch' : Bool}
+    {p : List Nat} (h : checkUB d rid fl ul prev ch = true) (hs : SameLink ul ul') (hh : ul'.hash = some p) :
+    checkUB (setF d fl (.cont ul' p)) rid fl ul' prev ch' = true := by
+  unfold checkUB at h ⊢
+  obtain ⟨h1, h2, h3, h4⟩ := hs
+  simp only [Bool.and_eq_true] at h
+  obtain ⟨⟨⟨ha, _⟩, _⟩, hd⟩ := h
+  simp only [h1, ha, hh, Option.isNone_some, Bool.and_false, Bool.not_false, payloadOf, getF_setF_eq,
+    beq_self_eq_true, Bool.and_self, Bool.true_and]
+  cases prev with
+  | none => rfl
+  | some q => simpa [h2, h4] using hd
+
+theorem checkChain_commit_last (d : Disk) (rid : Nat) (fl : Name) (ul ul' : UB) (p : List Nat)
+    (hs : SameLink ul ul') (hh : ul'.hash = some p) :
+    ∀ (rest : List (Name × UB)) (prev : UB), checkChain d rid prev rest = true →
+      lastFile rest = some (fl, ul) → (∀ x ∈ dropLastF rest, x.1 ≠ fl) →
+      checkChain (setF d fl (.cont ul' p)) rid prev (setLastUB rest ul') = true
+  | [], _, _, hl, _ => by simp [lastFile] at hl
+  | [(g, v)], prev, hc, hl, _ => by
+    simp only [lastFile, Option.some.injEq, Prod.mk.injEq] at hl
+    obtain ⟨h1, h2⟩ := hl
+    subst h1; subst h2
+    simp only [checkChain] at hc
+    simp only [setLastUB, checkChain]
+    exact checkUB_committed hc hs hh
+  | (g, v) :: y :: r, prev, hc, hl, hne => by
+    simp only [lastFile] at hl
+    simp only [checkChain, Bool.and_eq_true] at hc
+    have hg : g ≠ fl := hne (g, v) (by simp [dropLastF])
+    have ih := checkChain_commit_last d rid fl ul ul' p hs hh (y :: r) v hc.2 hl
+      (fun x hx => hne x (by simp only [dropLastF, List.mem_cons]; right; exact hx))
+    have hshape : ∃ y' r', setLastUB (y :: r) ul' = y' :: r' := by
+      cases r with
+      | nil => obtain ⟨a, b⟩ := y; exact ⟨_, _, rfl⟩
+      | cons z r'' => exact ⟨_, _, rfl⟩
+    obtain ⟨y', r', hy⟩ := hshape
+    have : setLastUB ((g, v) :: y :: r) ul' = (g, v) :: y' :: r' := by
+      simp only [setLastUB, hy]
+    rw [this]
+    simp only [checkChain, Bool.and_eq_true]
+    rw [hy] at ih
+    exact ⟨by rw [checkUB_congr (getF_setF_ne _ _ _ _ hg)]; exact hc.1, ih⟩
+
+theorem map_pid_setLastUB : ∀ (l : List (Name × UB)) (fl : Name) (ul u : UB),
+    lastFile l = some (fl, ul) → u.pid = ul.pid →
+    (setLastUB l u).map (fun x => x.2.pid) = l.map (fun x => x.2.pid)
+  | [], _, _, _, h, _ => by simp [lastFile] at h
+  | [(g, v)], fl, ul, u, h, hp => by
+    simp only [lastFile, Option.some.injEq, Prod.mk.injEq] at h
+    simp [setLastUB, hp, h.2]
+  | a :: b :: r, fl, ul, u, h, hp => by
+    simp only [lastFile] at h
+    have := map_pid_setLastUB (b :: r) fl ul u h hp
+    simp only [setLastUB, List.map_cons] at this ⊢
+    rw [this]
+
+theorem map_idx_setLastUB : ∀ (l : List (Name × UB)) (fl : Name) (ul u : UB),
+    lastFile l = some (fl, ul) → u.idx = ul.idx →
+    (setLastUB l u).map (fun x => x.2.idx) = l.map (fun x => x.2.idx)
+  | [], _, _, _, h, _ => by simp [lastFile] at h
+  | [(g, v)], fl, ul, u, h, hp => by
+    simp only [lastFile, Option.some.injEq, Prod.mk.injEq] at h
+    simp [setLastUB, hp, h.2]
+  | a :: b :: r, fl, ul, u, h, hp => by
+    simp only [lastFile] at h
+    have := map_idx_setLastUB (b :: r) fl ul u h hp
+    simp only [setLastUB, List.map_cons] at this ⊢
+    rw [this]
+
+theorem distinctPids_map : ∀ (l l' : List (Name × UB)),
+    l.map (fun x => x.2.pid) = l'.map (fun x => x.2.pid) → distinctPids l = distinctPids l'
+  | [], [], _ => rfl
+  | [], _ :: _, h => by simp at h
+  | _ :: _, [], h => by simp at h
+  | (f, u) :: r, (g, v) :: r', h => by
+    simp only [List.map_cons, List.cons.injEq] at h
+    have hany : r.any (fun y => y.2.pid == u.pid) = r'.any (fun y => y.2.pid == v.pid) := by
+      have key : ∀ (l : List (Name × UB)) (q : Nat),
+          l.any (fun y => y.2.pid == q) = (l.map (fun x => x.2.pid)).any (fun z => z == q) := by
+        intro l q; rw [List.any_map]; rfl
+      rw [key r, key r', h.2, h.1]
+    simp only [distinctPids, hany, distinctPids_map r r' h.2]
+
+theorem pairwise_idx_map : ∀ (l l' : List (Name × UB)),
+    l.map (fun x => x.2.idx) = l'.map (fun x => x.2.idx) → l.Pairwise IdxLt → l'.Pairwise IdxLt := by
+  intro l l' h hp
+  have h1 : (l.map (fun x => x.2.idx)).Pairwise (· < ·) := by
+    rw [List.pairwise_map]; exact hp
+  rw [h, List.pairwise_map] at h1
+  exact h1
+
+
+theorem mem_of_mem_dropLastF : ∀ (l : List (Name × UB)) (x : Name × UB), x ∈ dropLastF l → x ∈ l
+  | [], x, h => by simp [dropLastF] at h
+  | [_], x, h => by simp [dropLastF] at h
+  | a :: b :: r, x, h => by
+    simp only [dropLastF, List.mem_cons] at h
+    rcases h with rfl | h
+    · simp
+    · exact List.mem_cons_of_mem _ (mem_of_mem_dropLastF (b :: r) x h)
+
+theorem Coherent.init_ne_last {d : Disk} {files : List (Name × UB)} (hc : Coherent d files)
+    {fl : Name} {ul : UB} (hl : lastFile files = some (fl, ul)) :
+    ∀ x ∈ dropLastF files, x.1 ≠ fl ∧ x.2.idx < ul.idx := by
+  intro x hx
+  have hsplit := dropLastF_append_last files (fl, ul) hl
+  have hs := hc.sorted
+  rw [← hsplit, List.pairwise_append] at hs
+  have hlt : x.2.idx < ul.idx := hs.2.2 x hx (fl, ul) (by simp)
+  refine ⟨?_, hlt⟩
+  intro hname
+  have := hc.names_nodup x (fl, ul) (mem_of_mem_dropLastF _ _ hx) (lastFile_mem _ _ hl) hname
+  rw [this] at hlt
+  exact Nat.lt_irrefl _ hlt
+
+theorem coherent_commit_last {d : Disk} {files : List (Name × UB)} {fl : Name} {ul ul' : UB} {p : List Nat}
+    (hc : Coherent d files) (hl : lastFile files = some (fl, ul)) (hp : payloadOf d fl = some p)
+    (hs : SameLink ul ul') (hh : ul'.hash = some p) :
+    Coherent (setF d fl (.cont ul' p)) (setLastUB files ul') := by
+  have hinit := hc.init_ne_last hl
+  obtain ⟨f0, u0, rest, hfiles, hprev, hc0, hcc, hdp⟩ := hc.checks
+  refine ⟨?_, ?_, ?_⟩
+  · intro f ub hm
+    rcases mem_setLastUB files fl ul ul' (f, ub) hl hm with h | h
+    · cases h; exact ⟨p, getF_setF_eq _ _ _⟩
+    · obtain ⟨q, hq⟩ := hc.onDisk f ub (mem_of_mem_dropLastF _ _ h)
+      exact ⟨q, by rw [getF_setF_ne _ _ _ _ (hinit _ h).1]; exact hq⟩
+  · exact pairwise_idx_map _ _ (map_idx_setLastUB files fl ul ul' hl hs.2.1).symm hc.sorted
+  · have hdp' : distinctPids (setLastUB files ul') = true := by
+      rw [distinctPids_map _ files (map_pid_setLastUB files fl ul ul' hl hs.2.2.1)]; exact hdp
+    subst hfiles
+    cases rest with
+    | nil =>
+      simp only [lastFile, Option.some.injEq, Prod.mk.injEq] at hl
+      obtain ⟨h1, h2⟩ := hl
+      subst h1; subst h2
+      refine ⟨f0, ul', [], rfl, by rw [hs.2.2.2]; exact hprev, ?_, rfl, hdp'⟩
+      have := checkUB_committed (ch' := !([] : List (Name × UB)).isEmpty) hc0 hs hh
+      rw [hs.1]; exact this
+    | cons y r =>
+      have hf0 : f0 ≠ fl := (hinit (f0, u0) (by simp [dropLastF])).1
+      have hl' : lastFile (y :: r) = some (fl, ul) := by simpa [lastFile] using hl
+      have hshape : ∃ y' r', setLastUB (y :: r) ul' = y' :: r' := by
+        cases r with
+        | nil => obtain ⟨a, b⟩ := y; exact ⟨_, _, rfl⟩
+        | cons z r'' => exact ⟨_, _, rfl⟩
+      obtain ⟨y', r', hy⟩ := hshape
+      have hset : setLastUB ((f0, u0) :: y :: r) ul' = (f0, u0) :: setLastUB (y :: r) ul' := by
+        simp only [setLastUB]
+      refine ⟨f0, u0, setLastUB (y :: r) ul', hset, hprev, ?_, ?_, hdp'⟩
+      · rw [hy]
+        rw [checkUB_congr (getF_setF_ne _ _ _ _ hf0)]
+        simpa using hc0
+      · apply checkChain_commit_last d u0.rid fl ul ul' p hs hh (y :: r) u0 hcc hl'
+        intro x hx
+        exact (hinit x (by simp only [dropLastF, List.mem_cons]; right; exact hx)).1
+
+theorem viewFiles_commit_last {d : Disk} {files : List (Name × UB)} {fl : Name} {ul ul' : UB} {p : List Nat}
+    (hc : Coherent d files) (hl : lastFile files = some (fl, ul)) (hp : payloadOf d fl = some p) :
+    viewFiles (setF d fl (.cont ul' p)) (setLastUB files ul') = viewFiles d files := by
+  rw [viewFiles_names _ (setLastUB files ul') files (map_fst_setLastUB _ _)]
+  have hinit := hc.init_ne_last hl
+  have hsplit := dropLastF_append_last files (fl, ul) hl
+  have key : ∀ (l : List (Name × UB)), (∀ x ∈ l, x.1 = fl ∨ x.1 ≠ fl) →
+      viewFiles (setF d fl (.cont ul' p)) l = viewFiles d l := by
+    intro l _
+    induction l with
+    | nil => rfl
+    | cons x r ih =>
+      obtain ⟨f, u⟩ := x
+      simp only [viewFiles]
+      rw [ih (fun y hy => Classical.em _)]
+      by_cases hf : f = fl
+      · subst hf
+        simp only [payloadOf, getF_setF_eq] at hp ⊢
+        cases hg : getF d f with
+        | none => simp [hg] at hp
+        | some v => cases v <;> simp_all
+      · rw [payloadOf_congr (getF_setF_ne _ _ _ _ hf)]
+  exact key files (fun x _ => Classical.em _)
+
 end MetadorModel.Record
